@@ -73,6 +73,12 @@ func queries() []*qgen.Query {
 	}
 }
 
+// customSafe is an application error type that marks itself client-safe by implementing graphql.SanitizedError.
+type customSafe struct{ field string }
+
+func (e customSafe) Error() string          { return "custom failure of " + e.field + " " + secret }
+func (e customSafe) SanitizedError() string { return "custom safe text for " + e.field }
+
 func hook(c kcase) *gqlfix.Hooks {
 	failing := map[inst]bool{}
 	for _, f := range c.fail {
@@ -88,6 +94,8 @@ func hook(c kcase) *gqlfix.Hooks {
 					return graphql.NewSafeError("safe fail %s", field)
 				case "wrapped":
 					return graphql.WrapAsSafeError(errors.New(secret), "wrapped fail %s", field)
+				case "custom":
+					return customSafe{field}
 				case "panic":
 					panic("panic " + field)
 				}
@@ -131,6 +139,8 @@ func acceptable(d *gqlfix.Data, c kcase) (exact []string, prefixes []string) {
 			exact = append(exact, "safe fail "+in.Field)
 		case "wrapped":
 			exact = append(exact, "wrapped fail "+in.Field)
+		case "custom": // client-safe by its own declaration: handed on as it is, without a path
+			exact = append(exact, customSafe{in.Field}.Error())
 		case "panic":
 			prefixes = append(prefixes, fmt.Sprintf("%s: graphql: panic: panic %s\n", in.Path, in.Field))
 		}
@@ -196,7 +206,7 @@ func cases(tier string) []kcase {
 		}
 		insts = append(insts, inst{"owner", 12345}) // never reached
 		for _, m := range modeSets {
-			for _, kind := range []string{"error", "safe", "wrapped", "panic"} {
+			for _, kind := range []string{"error", "safe", "wrapped", "panic", "custom"} {
 				for i := range insts {
 					out = append(out, kcase{q: q, modes: m, fail: []inst{insts[i]}, kind: kind})
 					for j := i + 1; j < len(insts); j++ {
@@ -281,7 +291,7 @@ func runSched(rp *explore.Report, tier string) {
 
 func init() {
 	reg.Register(&reg.Harness{Property: "C16", Name: "c16/execute-sequential", Level: "model_checking", Run: runSeq,
-		Rule: "sequential part: 7 queries (nested objects, lists, lists with null entries, lists handed over by value incl. non-comparable structs, aliases, unions, resolvers whose only result is an error) x every single failing field instance and pairs of them (incl. one that is never reached) x failure kind {error, SafeError, wrapped safe error, panic} x field modes {plain, expensive, batch, mixed parallel} x FIFO/LIFO schedulers and, for Expensive mode sets, inside a reactive rerunner; oracle: Execute returns (nil, err) and err is exactly `path: message` of a failing reached field instance (response path with aliases and list indices; any member of the unit for batch fields), or the bare message for client-safe errors; no failure when no failing field is reached"})
+		Rule: "sequential part: 7 queries (nested objects, lists, lists with null entries, lists handed over by value incl. non-comparable structs, aliases, unions, resolvers whose only result is an error) x every single failing field instance and pairs of them (incl. one that is never reached) x failure kind {error, SafeError, wrapped safe error, an application type implementing SanitizedError, panic} x field modes {plain, expensive, batch, mixed parallel} x FIFO/LIFO schedulers and, for Expensive mode sets, inside a reactive rerunner; oracle: Execute returns (nil, err) and err is exactly `path: message` of a failing reached field instance (response path with aliases and list indices; any member of the unit for batch fields), or the bare message for client-safe errors; no failure when no failing field is reached"})
 	reg.Register(&reg.Harness{Property: "C16", Name: "c16/execute-scheduled", Level: "model_checking", Bounds: [2]int{2, 3}, Run: runSched,
 		Item: func(name string) *explore.Item {
 			for _, c := range cases("thorough") {
